@@ -188,6 +188,91 @@ fn collision_case(out: &mut Vec<String>, case: &mut usize, backend: &str) {
     after_finish(out, 0);
 }
 
+/// "collision squares": two different child lists X, Y with equal text length whose child hashes
+/// collide (by the real Fx witness under no mask, by construction under a narrow mask), each wrapped in
+/// two node kinds A and B, in every order, plus nested variants -- the shapes on which a cache that
+/// confuses nodes with equal `(text_len, child_hash)` or equal children hands out a wrong node
+fn collision_squares(out: &mut Vec<String>, case: &mut usize, rng: &mut Rng, tier: &str, bes: &[&str]) {
+    let t = |k: u32, s: &str| RefTree::Tok(k, s.to_string());
+    let n = |k: u32, cs: Vec<RefTree>| RefTree::Node(k, cs);
+    let witness: Vec<(Vec<RefTree>, Vec<RefTree>)> = vec![(vec![t(4, "aa")], vec![t(568332233, "dd")])];
+    let pool: Vec<Vec<RefTree>> = vec![
+        vec![t(10, "a")],
+        vec![t(10, "b")],
+        vec![t(10, "a"), t(10, "b")],
+        vec![t(10, "b"), t(10, "a")],
+        vec![t(11, "é")],
+        vec![t(10, "ab")],
+        vec![n(2, vec![t(10, "a")]), t(10, "b")],
+    ];
+    let tl = |cs: &Vec<RefTree>| -> usize {
+        fn l(t: &RefTree) -> usize {
+            match t {
+                RefTree::Tok(_, s) => s.len(),
+                RefTree::Node(_, cs) => cs.iter().map(l).sum(),
+            }
+        }
+        cs.iter().map(l).sum()
+    };
+    let mut pairs: Vec<(u32, Vec<RefTree>, Vec<RefTree>)> = vec![];
+    for (x, y) in &witness {
+        pairs.push((u32::MAX, x.clone(), y.clone()));
+    }
+    for mask in [0u32, 1, 3] {
+        for i in 0..pool.len() {
+            for j in 0..pool.len() {
+                if i != j && tl(&pool[i]) == tl(&pool[j]) {
+                    pairs.push((mask, pool[i].clone(), pool[j].clone()));
+                }
+            }
+        }
+    }
+    let orders: Vec<Vec<usize>> = {
+        let mut v = vec![];
+        for a in 0..4 {
+            for b in 0..4 {
+                for c in 0..4 {
+                    for d in 0..4 {
+                        let p = vec![a, b, c, d];
+                        let mut q = p.clone();
+                        q.sort();
+                        if q == vec![0, 1, 2, 3] {
+                            v.push(p);
+                        }
+                    }
+                }
+            }
+        }
+        v
+    };
+    let per_pair = if tier == "thorough" { 24 } else { 6 };
+    for (pi, (mask, x, y)) in pairs.iter().enumerate() {
+        for (a, b) in [(0u32, 1u32), (5, 0)] {
+            let four = [n(a, x.clone()), n(a, y.clone()), n(b, x.clone()), n(b, y.clone())];
+            for k in 0..per_pair {
+                let ord = if tier == "thorough" { &orders[k] } else { &orders[(pi * 7 + k * 5 + a as usize) % 24] };
+                let mut shapes: Vec<RefTree> = vec![n(0, ord.iter().map(|i| four[*i].clone()).collect())];
+                if k == 0 {
+                    // nested: the colliding nodes one level down, inside otherwise identical parents
+                    shapes.push(n(0, vec![n(b, vec![n(a, x.clone())]), n(b, vec![n(a, y.clone())]), n(b, vec![n(a, x.clone())])]));
+                    shapes.push(n(0, vec![n(a, y.clone()), n(b, vec![n(a, x.clone()), n(a, y.clone())]), n(b, y.clone()), n(a, x.clone())]));
+                }
+                for sh in shapes {
+                    out.push(format!("cfg mask {}", mask));
+                    out.push(format!("case {}", *case));
+                    *case += 1;
+                    out.push(format!("cache {}", bes[*case % bes.len()]));
+                    out.push("builder c0".into());
+                    emit_tree(&sh, out, rng);
+                    out.push("finish".into());
+                    after_finish(out, 0);
+                }
+            }
+        }
+    }
+    out.push(format!("cfg mask {}", u32::MAX));
+}
+
 pub fn gen_build(seed: u64, tier: &str) -> Vec<String> {
     let mut rng = Rng::new(seed ^ 0xC01);
     let mut out = vec![];
@@ -197,6 +282,7 @@ pub fn gen_build(seed: u64, tier: &str) -> Vec<String> {
     for b in &bes {
         collision_case(&mut out, &mut case, b);
     }
+    collision_squares(&mut out, &mut case, &mut rng, tier, &bes);
     // bounded-exhaustive small trees
     let toks = vec![
         RefTree::Tok(10, "a".into()),
